@@ -400,6 +400,9 @@ def run_atheris(rec):
         env = dict(os.environ, PYTHONPATH=deps + os.pathsep + VERIF_DIR)
         args = [sys.executable, "-B", script, work, f"-seed={seed_base() % (1 << 31) or 1}",
                 "-runs=2000000", "-max_len=4096", "-timeout=60", f"-artifact_prefix={work}/crash-"]
+        out = os.path.join(work, "units")        # libFuzzer writes new units to the first directory only
+        os.makedirs(out, exist_ok=True)
+        args.append(out)
         if use_corpus:
             args.append(os.path.join(VERIF_DIR, "corpus", "C04", "bin"))
         try:
